@@ -83,6 +83,25 @@ pub fn gen(seed: u64, idx: u64, _tier: Tier) -> Case {
     let motif = idx % 2 == 0;
     let mut pre: Vec<Op> = vec![];
     let mut model = Model::new(version);
+    if idx % 4 == 1 {
+        // motif of the workloads that carry on after a failed set_len: bytes appended through a
+        // handle are still in its buffer when set_len (to at most the old length) is called and
+        // fails; the next Ok flush owes them
+        let len = *rng.pick(&[500u64, 5000, 9000]);
+        pre.push(Op::WriteWhole { path: "/t".into(), len, nonce: 70 });
+        pre.push(Op::HOpen { h: 3, path: "/t".into() });
+        pre.push(Op::HSeek { h: 3, whence: Whence::End, off: 0, uoff: 0 });
+        pre.push(Op::HWriteAll { h: 3, len: *rng.pick(&[10usize, 200, 3000]), nonce: 71 });
+        pre.push(Op::HSetLen { h: 3, n: *rng.pick(&[0u64, len / 2, len]) });
+        pre.push(Op::HFlush { h: 3 });
+        pre.push(Op::HSeek { h: 3, whence: Whence::End, off: 0, uoff: 0 });
+        pre.push(Op::HWriteAll { h: 3, len: 7, nonce: 72 });
+        pre.push(Op::HFlush { h: 3 });
+        pre.push(Op::HDrop { h: 3 });
+        for op in &pre {
+            model.predict(op);
+        }
+    }
     if motif {
         let len = *rng.pick(&[3000u64, 6000, 9000]);
         pre.push(Op::WriteWhole { path: "/p".into(), len, nonce: 77 });
@@ -128,9 +147,14 @@ pub fn gen(seed: u64, idx: u64, _tier: Tier) -> Case {
             Op::HWriteAll { h: 0, len: 75_000 - a, nonce: 91 },
             Op::HFlush { h: 0 },
         ];
+        let mut m1_len = 0usize;
         for (i, name) in ["/m1", "/m2", "/m3"].iter().enumerate() {
             ops.push(Op::HCreate { h: 1, path: name.to_string() });
-            ops.push(Op::HWriteAll { h: 1, len: rng.range(2_900, 3_900) as usize, nonce: 92 + i as u32 });
+            let len = rng.range(2_900, 3_900) as usize;
+            if i == 0 {
+                m1_len = len;
+            }
+            ops.push(Op::HWriteAll { h: 1, len, nonce: 92 + i as u32 });
             ops.push(Op::HFlush { h: 1 });
             ops.push(Op::HDrop { h: 1 });
         }
@@ -171,9 +195,14 @@ pub fn gen(seed: u64, idx: u64, _tier: Tier) -> Case {
         // its mini sectors (a mini sector that ended up on the free list twice is handed to two
         // of them; the final audit re-reads the first)
         ops.push(Op::RemoveStream("/m1".into()));
+        // the first two together take exactly the mini sectors the removed stream had, so that the
+        // sector freed first (handed out last) and whatever follows it on the free list go to
+        // DIFFERENT streams
+        let freed = (m1_len + 63) / 64;
+        let xlens = [(freed / 2) * 64, (freed - freed / 2) * 64, rng.range(900, 1_900) as usize];
         for (i, name) in ["/x1", "/x2", "/x3"].iter().enumerate() {
             ops.push(Op::HCreate { h: 1, path: name.to_string() });
-            ops.push(Op::HWriteAll { h: 1, len: rng.range(900, 1_900) as usize, nonce: 110 + i as u32 });
+            ops.push(Op::HWriteAll { h: 1, len: xlens[i], nonce: 110 + i as u32 });
             ops.push(Op::HFlush { h: 1 });
             ops.push(Op::HDrop { h: 1 });
         }
